@@ -265,9 +265,21 @@ def decide(prop, tier):
     for need in spec.get("needs", ["harness"]):
         {"harness": build_harness, "cli": build_cli, "py": build_py}[need]()
     reps = []
+    engine_failures = []
     for part in spec["parts"]:
-        reps.append(part(tier))
+        # an engine failure in one part (exit 2 of the whole check unless another part shows a violation with a
+        # replayable case: what the real code was seen doing stands whatever happened to another engine)
+        try:
+            reps.append(part(tier))
+        except Machinery as e:
+            engine_failures.append(str(e))
+    if not reps:
+        raise Machinery("; ".join(engine_failures))
     rep = merge_reports(reps)
+    if engine_failures and rep["violation_count"] == 0:
+        raise Machinery("; ".join(engine_failures))
+    if engine_failures:
+        rep["notes"].append("engine failure in another part of this check (its space was not explored in this run): " + "; ".join(engine_failures)[:500])
     known = load_known()
     new, old = [], {}
     for v in rep["violations"]:
